@@ -278,7 +278,12 @@ fn main() {
                     break;
                 }
                 match op.as_str() {
-                    "shb" => push(&net, &wire::heartbeat(0), "push", "heartbeat"),
+                    "shb" => {
+                        // a whole frame may only follow a whole frame
+                        let mut b = std::mem::take(&mut partial);
+                        b.extend_from_slice(&wire::heartbeat(0));
+                        push(&net, &b, "push", "heartbeat");
+                    }
                     "smeth" => {
                         let m = if blocked {
                             AMQPClass::Connection(Cn::Unblocked(connection::Unblocked {}))
@@ -286,7 +291,9 @@ fn main() {
                             AMQPClass::Connection(Cn::Blocked(connection::Blocked { reason: "low on memory".into() }))
                         };
                         blocked = !blocked;
-                        push(&net, &wire::method(0, m), "push", "method");
+                        let mut b = std::mem::take(&mut partial);
+                        b.extend_from_slice(&wire::method(0, m));
+                        push(&net, &b, "push", "method");
                     }
                     "sbyte" => {
                         if partial.is_empty() {
